@@ -17,10 +17,11 @@ Set Implicit Arguments.
 Record flags := {
   fixed_P7 : bool;          (* untrack re-materialises hard links into the cache too *)
   fixed_P8 : bool;          (* untrack skips targets that are not in the workspace / directory records *)
-  fixed_mv_absent : bool    (* move of a copy-method file whose source is absent rechecks the destination *)
+  fixed_mv_absent : bool;   (* move of a copy-method file whose source is absent rechecks the destination *)
+  fixed_P45 : bool          (* move refuses to remove (not rename) a source whose content has no cache object *)
 }.
-Definition as_is : flags := {| fixed_P7 := false; fixed_P8 := false; fixed_mv_absent := false |}.
-Definition all_fixed : flags := {| fixed_P7 := true; fixed_P8 := true; fixed_mv_absent := true |}.
+Definition as_is : flags := {| fixed_P7 := false; fixed_P8 := false; fixed_mv_absent := false; fixed_P45 := false |}.
+Definition all_fixed : flags := {| fixed_P7 := true; fixed_P8 := true; fixed_mv_absent := true; fixed_P45 := true |}.
 
 Record xrepo := { base : repo; dirs : list path }.
 Definition xinit (a : algo) (m : method) (t : tob) : xrepo := {| base := init_repo a m t; dirs := [] |}.
@@ -274,6 +275,24 @@ Definition move_cmd (fl : flags) (o : move_opts) (src dst : bytes) (r : xrepo) :
   | MPlanned l => move_apply fl o r l
   end.
 
+(* the pre-check added by the fix of P45 (after the destination checks, before any record changes): a
+   source that would be REMOVED rather than renamed (a recheck method other than copy on either side, or
+   --no-recheck) and exists in the workspace must have a cache object under the name the destination
+   will be rechecked from; a file tracked with --no-commit has none *)
+Definition move_uncommitted (o : move_opts) (r : xrepo) (l : list (N * frec * path)) : bool :=
+  existsb (fun ed : N * frec * path =>
+    let '(e, x, d) := ed in
+    let sm := r_method x in
+    let dm := match m_as o with Some m => m | None => sm end in
+    let renamed := negb (m_no_recheck o) && method_eqb sm Copy && method_eqb dm Copy in
+    negb renamed && ws_exists (xfs r) (r_path x) &&
+    negb (match r_digest x with Some dg => obj_exists (xfs r) (cache_addr d dg) | None => false end)) l.
+Definition move_cmd45 (fl : flags) (o : move_opts) (src dst : bytes) (r : xrepo) : xrepo * outcome :=
+  match move_plan src dst r with
+  | MPlanned l => if fixed_P45 fl && move_uncommitted o r l then (r, Err) else move_cmd fl o src dst r
+  | MRefused _ => move_cmd fl o src dst r
+  end.
+
 (* ---- remove --from-cache ------------------------------------------------------------------------------ *)
 (* --only-version <hex prefix>: hash functions are ideal in the model, so the prefix is given by the
    digests whose hexadecimal form starts with it (v_any = the empty prefix) *)
@@ -395,7 +414,7 @@ Definition do_xitem (fl : flags) (r : xrepo) (it : xitem) : xrepo * outcome :=
   match it with
   | XBase i => let '(b, oc) := do_item (base r) i in (set_base r b, oc)
   | XCopy o s d => copy_cmd o s d r
-  | XMove o s d => move_cmd fl o s d r
+  | XMove o s d => move_cmd45 fl o s d r
   | XRemove o ts => remove_cmd o ts r
   | XUntrack ts => untrack_cmd fl ts r
   end.
